@@ -342,7 +342,19 @@ def check_mark_operands(ctx: Ctx):
         later = stmts[idx:] if idx is not None else []
         pos_mark = next((i for i, s in enumerate(later) if any(dotted(c.func) == "qc.mark_ancilla" for c in q.calls(s))), None)
         pos_ret = next((i for i, s in enumerate(later) if isinstance(s, ast.Return)), None)
-        ok = pos_mark is not None and (pos_ret is None or pos_mark < pos_ret) and isinstance(later[pos_mark], ast.Expr)
+        def unconditional(st):
+            # the marking statement itself, or a loop over a non-empty literal list whose body is the marking statement
+            if isinstance(st, ast.Expr):
+                return True
+            if not (isinstance(st, ast.For) and all(isinstance(b, ast.Expr) for b in st.body) and not st.orelse):
+                return False
+            it = st.iter
+            if isinstance(it, ast.Name):
+                bs = [a.value for a in later if isinstance(a, ast.Assign) and len(a.targets) == 1 and isinstance(a.targets[0], ast.Name) and a.targets[0].id == it.id]
+                it = bs[0] if len(bs) == 1 else it
+            return isinstance(it, (ast.List, ast.Tuple)) and len(it.elts) >= 1
+
+        ok = pos_mark is not None and (pos_ret is None or pos_mark < pos_ret) and unconditional(later[pos_mark])
     ctx.check(ok, "TS-ANC", cn, "the operand of a copied negation is marked before returning", "", "compile_not copies its operand into the destination without marking the operand's scratch qubit for uncomputation on that path", cn.node)
 
 
